@@ -72,7 +72,7 @@ Proof. exact detect_then_own. Qed.
    trial in both forms (so the upfront UTF-8 check of the slice form never makes
    them differ on such input), is never taken for MessagePack, and is detected as
    JSON whatever the later trials would say. *)
-From XtModel Require Import Utf8 MsgpackModel JsonModel JsonTrialModel JsonTrialProofs DetectModel SelfDetectProofs.
+From XtModel Require Import Utf8 MsgpackModel JsonModel JsonTrialModel JsonTrialProofs MsgpackTrialProofs DetectModel SelfDetectProofs.
 
 Theorem C09_translatable_json_accepted_by_both_trial_forms :
   forall (inp : bytes) (d : list ev) (docs : list (list ev)),
